@@ -11,6 +11,8 @@ out=/verif/seeded/RESULTS.txt
 for d in /verif/seeded/*/; do
   id=$(basename $d)
   [ "$id" = "_retired" ] && continue
+  [ "$id" = "_benign" ] && continue
+  if [ -n "${ONLY:-}" ] && ! [[ "$id" =~ $ONLY ]]; then continue; fi
   prop=$(python3 -c "import json;print(json.load(open('$d/meta.json')).get('property','${id%%-*}'))")
   for p in $prop ${EXTRA:-}; do
     ( cd $R && git checkout -q -- . && (git apply $d/patch.diff 2>/dev/null || patch -p1 -s -F3 < $d/patch.diff) ) || { echo "$id $p APPLY-FAILED" >> $out.tmp; continue; }
@@ -20,5 +22,12 @@ for d in /verif/seeded/*/; do
     ( cd $R && git checkout -q -- . )
   done
 done
-mv $out.tmp $out
+if [ -n "${ONLY:-}" ]; then
+  # partial run: replace the rows of the ids that were run
+  touch $out
+  grep -v -E "^($(cut -d' ' -f1 $out.tmp | sort -u | paste -sd'|')) " $out > $out.keep
+  cat $out.keep $out.tmp | sort > $out; rm -f $out.keep $out.tmp
+else
+  mv $out.tmp $out
+fi
 rm -rf $R /tmp/verif_matrix_work /tmp/verif_matrix_evid
